@@ -141,7 +141,7 @@ CHECKS["C06"] = dict(engine="cdiff", category="other", design_ref="DESIGN.md §5
     text="Differential check: verdict kind of BitMachine::exec vs evalTCOExpression without anti-DoS flags on the same m"
          "arshalled C environment, over generated 1->1 Elements programs and a generated family of transaction environme"
          "nts, plus environment probes (one-jet programs whose verdict follows from the environment parameters alone). C"
-         "oq is a third party on a dedicated population: the big-step semantics Core/Sem.v with the 306 specified Core j"
+         "oq is a third party on a dedicated population: the big-step semantics Core/Sem.v with the specified Core j"
          "ets, compared with Rust and C including the hidden CMR on assertion failures; corollaries of C05's exec_correc"
          "t for 1->1 programs are pinned (the machine model succeeds / fails with the same kind iff eval does).",
     note="Level other: the C evaluator and C jets are opaque; no theorem mentions them.",
@@ -211,13 +211,15 @@ CHECKS["C05"] = dict(engine="core", category="proof", design_ref="DESIGN.md §5 
          "esult cells are a padded encoding of the semantic value, everything outside the write window and the scratch a"
          "rea is unchanged, each error kind occurs exactly when the semantics fail, the verdict is independent of initia"
          "l memory and of the input's padding bits; lifted to the byte-level Value model of C10 (exec returns a well-for"
-         "med Value denoting eval). 342 of 368 Core jets are specified in Gallina, the SHA-256 family over the executabl"
-         "e SHA-256 of C09 with the theorem that init/add/finalize compute SHA-256 of the message; EC and signature jets"
-         " stay an oracle under a typing hypothesis. Correspondence on generated typed programs, template streams (align"
-         "ed copies of 8k+r bits, disconnect with branches of different widths, read-after-drop/case), Value-level strea"
+         "med Value denoting eval). All 368 Core jets are specified in Gallina, the SHA-256 family over the executabl"
+         "e SHA-256 of C09 with the theorem that init/add/finalize compute SHA-256 of the message; the secp256k1 jets ("
+         "field, scalar, Jacobian point formulas with libsecp256k1's exact representatives, ecmult, BIP-340) with fiel"
+         "d laws and on-curve preservation proved, Fermat inversion left as a statement. Correspondence on generated typed programs, template streams (align"
+         "ed copies of 8k+r bits, disconnect with branches of different widths, read-after-drop/case, assertions on the "
+         "neighbouring frame after a last write or copy at every alignment), Value-level strea"
          "m at shifted buffer offsets, and a python reference evaluator.",
-    note="Trusted: Coq kernel, hand-written machine model and jet specifications, harness; Elements jets, C code and the 62 "
-         "unspecified Core jets are not modelled.",
+    note="Trusted: Coq kernel, hand-written machine model and jet specifications, harness; Elements-only jets and C code "
+         "are not modelled.",
     technique="Coq proof of machine correctness by induction on typing + correspondence")
 CHECKS["C07"] = dict(engine="core", category="proof", design_ref="DESIGN.md §5 C05/C07, §11.3",
     text="Carried by the same induction as C05: if check_program accepts then no bound arithmetic saturated, the machine sized by "
